@@ -17,6 +17,7 @@ NPROC = int(os.environ.get('VERIF_JOBS', '16'))
 
 HARNESS_ERROR = 2
 # global budget (seconds of unit starts) of a thorough run; units themselves have their own caps
+QUICK_S = int(330 * float(os.environ.get('VERIF_BUDGET_SCALE', '1')))   # global budget of unit starts in the quick tier (scale: for runs with fewer jobs)
 THOROUGH_S = int(os.environ.get('VERIF_THOROUGH_BUDGET', '1200'))
 
 
